@@ -305,8 +305,15 @@ impl Directive {
                         } else {
                             path
                         };
-                        if !include_paths.borrow_mut().contains(&path) {
-                            include_paths.borrow_mut().insert(path);
+                        if !include_paths.borrow_mut().insert(path.clone()) {
+                            // already searched - perhaps only for this file, as its own directory,
+                            // which is not handed on to the including file: an entry of its own
+                            // (same directory, spelled `dir/../dir`, which compares unequal) makes it
+                            // an `.includepath` like any other
+                            if let Some(name) = path.file_name() {
+                                let respelled = path.join("..").join(name);
+                                include_paths.borrow_mut().insert(respelled);
+                            }
                         }
                     } else {
                         bail!(
